@@ -248,18 +248,22 @@ public:
 
   size_t size() const { return numNodes; }
   size_t sizeEdges() const { return numEdges; }
-  iterator begin() { return &nodes[0]; }
-  iterator end() { return &nodes[numNodes]; }
-  const_iterator begin() const { return &nodes[0]; }
-  const_iterator end() const { return &nodes[numNodes]; }
+  // pointer arithmetic instead of &nodes[i]: an empty graph has no array to
+  // form a reference into
+  iterator begin() { return nodes.data(); }
+  iterator end() { return nodes.data() + numNodes; }
+  const_iterator begin() const { return nodes.data(); }
+  const_iterator end() const { return nodes.data() + numNodes; }
 
-  local_iterator local_begin() { return &nodes[this->localBegin(numNodes)]; }
-  local_iterator local_end() { return &nodes[this->localEnd(numNodes)]; }
+  local_iterator local_begin() {
+    return nodes.data() + this->localBegin(numNodes);
+  }
+  local_iterator local_end() { return nodes.data() + this->localEnd(numNodes); }
   const_local_iterator local_begin() const {
-    return &nodes[this->localBegin(numNodes)];
+    return nodes.data() + this->localBegin(numNodes);
   }
   const_local_iterator local_end() const {
-    return &nodes[this->localEnd(numNodes)];
+    return nodes.data() + this->localEnd(numNodes);
   }
 
   edge_iterator edge_begin(GraphNode N, MethodFlag mflag = MethodFlag::WRITE) {
